@@ -18,6 +18,15 @@ for name in sorted(spelling.EXTRA_VALUES):
         except Exception:  # pylint: disable=broad-except
             accepted = False
         lines.append(json.dumps({'cls': name, 'hex': data.hex(), 'ok': accepted, 'source': 'vmon/gen/spelling.py EXTRA_VALUES'}))
+for name in sorted(spelling.EDGE_INPUTS):
+    cls = inventory.resolve(name)
+    for data in spelling.EDGE_INPUTS[name]:
+        try:
+            cls.parse_exact_size(data)
+            accepted = True
+        except Exception:  # pylint: disable=broad-except
+            accepted = False
+        lines.append(json.dumps({'cls': name, 'hex': data.hex(), 'ok': accepted, 'source': 'vmon/gen/spelling.py EDGE_INPUTS'}))
 with open(os.path.join(HERE, 'corpus', 'zz_extra.jsonl'), 'w') as handle:
     handle.write('\n'.join(lines) + '\n')
 print(len(lines), 'entries,', sum('"ok": true' in line for line in lines), 'accepted')
